@@ -2,6 +2,7 @@
 C14 — filter-process speaks valid protocol, equals the one-shot filters, delays complete.
 Property theorems only (obligations of ./check C14).
 -/
+import LfsModel.SmudgeSkip
 import LfsModel.Gen
 import LfsModel.FilterProcessProofs
 import LfsModel.Pkt
@@ -94,5 +95,16 @@ theorem gen_pointer_remembered_only_when_delayed :
        -- ptr | case "smudge" && req.Header["can-delay"] == "1" && delayed
        [112, 116, 114, 32, 124, 32, 99, 97, 115, 101, 32, 34, 115, 109, 117, 100, 103, 101, 34, 32, 38, 38, 32, 114, 101, 113, 46, 72, 101, 97, 100, 101, 114, 91, 34, 99, 97, 110, 45, 100, 101, 108, 97, 121, 34, 93, 32, 61, 61, 32, 34, 49, 34, 32, 38, 38, 32, 100, 101, 108, 97, 121, 101, 100]
       ] := by decide
+
+/-! ### "the content it returns equals what the one-shot smudge filter returns" — skipped and excluded paths -/
+
+/-- a smudge with can-delay=1 is answered like the one-shot smudge of the same pointer and path, whether the path is
+    wanted (not skipped, allowed by the fetch filters) or not, whether the object is local or not -/
+theorem delayed_smudge_answers_like_one_shot (wanted isLocal : Bool) :
+    SmudgeSkip.delayed wanted isLocal = SmudgeSkip.oneShot wanted isLocal := SmudgeSkip.delayed_eq_oneShot wanted isLocal
+
+/-- a blob is delayed exactly when it is wanted and its object is not local -/
+theorem delayed_exactly_when_wanted_and_missing (wanted isLocal : Bool) :
+    SmudgeSkip.delayed wanted isLocal = .download ↔ (wanted = true ∧ isLocal = false) := SmudgeSkip.delayed_iff wanted isLocal
 
 end C14
